@@ -72,7 +72,20 @@ def rule_legacy_attr_parser(ctx):
         ctx.report("legacy:nested-not", w, "nested / repeated `not(..)` is no longer rejected (unbounded recursion on the attribute's nesting)", {})
     # slot overwrite: `info.X = Some(v)` without a test of info.X accepts duplicates and contradictions
     so = [g for g in A.functions(f) if g.name == "set_once"]
-    set_once_ok = len(so) == 1 and "if slot.replace(value).is_some(){return Err(" in A.fn_text(so[0])
+    # OPT-ALG: `set_once` evaluated on an empty and an occupied slot: fills the empty one and succeeds, fails on the other
+    set_once_ok = False
+    if len(so) == 1:
+        from .. import optalg as O
+
+        prm = [A.pat_idents(p_["0"]["pat"]) for p_ in so[0].node["sig"]["inputs"] if A.kind(p_) == "FnArg::Typed"]
+        if prm and len(prm[0]) == 1:
+            sl = prm[0][0]
+            res = []
+            for start in (O.NONE, O.some("old")):
+                env_, out = O.run_fn_body(so[0].block["stmts"], {sl: start})
+                val = out[1]
+                res.append((env_.get(sl) != O.NONE, val == ("Err",) or (isinstance(val, tuple) and val[:1] == ("Err",))))
+            set_once_ok = res == [(True, False), (True, True)]
     for slot, writes in sorted(slots.items()):
         unguarded = [(p, v) for p, v, g in writes if not g or (g and not set_once_ok and "set_once" in t)]
         ctx.instance(f"slot:{slot}", sample={"slot": slot, "writes": [(p, v) for p, v, _ in writes], "unguarded": len(unguarded)})
